@@ -199,6 +199,11 @@ OuterLoop:
 					return "", errors.New("invalid format string")
 				}
 			}
+			if i >= len(format) {
+				// The format string ends inside a conversion specification
+				// (e.g. "%" or "%5."): there is no verb and no value slot.
+				return "", errors.New("invalid format string")
+			}
 			args[j] = arg
 			j++
 		}
